@@ -105,8 +105,19 @@ def generate(rng):
                                 {'say': 'bye\r\n', 'dt': 5}]
         scn['timeout'] = rng.choice([0.3, 2.0])
         scn.pop('run_kwargs', None)
+    if rng.random() < 0.3:
+        # run(logfile=...): the log is the transcript of the whole dialogue, reads and responses in the order they happened
+        scn['logfile'] = True
+    if rng.random() < 0.3:
+        scn['extra_args'] = {'k': rng.randint(0, 99)}
+    if enc_is_utf8(scn) and rng.random() < 0.3:
+        scn['via'] = 'runu'            # the documented alias: run() with encoding='utf-8'
     gen_eintr(rng, scn)
     return scn
+
+
+def enc_is_utf8(scn):
+    return scn.get('enc') == 'utf-8'
 
 
 class Handler(object):
@@ -211,12 +222,15 @@ def run(scn):
             r._wrap_calls(ch)
         w.on_spawn = on_spawn
         cblog = []
+        xa_bad = []
 
         def mk_cb(e):
             ret = e['resp'].get('ret')
 
             def cb(d):
                 cblog.append((e['pat'], d.get('event_count'), d.get('child') is (spawned[0] if spawned else None), len(r.calls) - 1))
+                if 'extra_args' in scn and d.get('extra_args') != scn['extra_args']:
+                    xa_bad.append(d.get('extra_args'))
                 if e['resp'].get('side') == 'ignorecase' and d.get('child') is not None:
                     # a callback re-tunes the child through the state dictionary: later occurrences match case-insensitively
                     d['child'].ignorecase = True
@@ -256,9 +270,22 @@ def run(scn):
             raise HarnessError('text events under a search window are not judged')
         if enc:
             kw['encoding'] = enc
+        runlog = None
+        if scn.get('logfile'):
+            from .sendlog import SeqLog
+            runlog = SeqLog([0], 'logfile')
+            kw['logfile'] = runlog
+        if 'extra_args' in scn:
+            kw['extra_args'] = dict(scn['extra_args'])
+        entry = pexpect.run
+        if scn.get('via') == 'runu':
+            if enc != 'utf-8':
+                raise HarnessError('runu is run() with encoding utf-8')
+            kw.pop('encoding', None)
+            entry = pexpect.runu
         res = None
         try:
-            res = pexpect.run('/bin/simdialogue', timeout=scn.get('timeout', 1), withexitstatus=scn.get('withexitstatus', False),
+            res = entry('/bin/simdialogue', timeout=scn.get('timeout', 1), withexitstatus=scn.get('withexitstatus', False),
                               events=arg if events else None, echo=False, **kw)
         except SimHang as e:
             out.append(Violation('C12.hang', 'run() never returned: %s' % e, None, {}))
@@ -374,6 +401,50 @@ def run(scn):
                 elif any(c[1] != c[3] for c in cblog):
                     out.append(Violation('C12.callback', 'event_count seen by callbacks %r is not the number of earlier events %r'
                                          % (counts, [c[3] for c in cblog]), None, det))
+        if xa_bad and not out:
+            out.append(Violation('C12.callback', 'a callback found extra_args=%r in the state dictionary, run() was given %r'
+                                 % (xa_bad[0], scn['extra_args']), None, {'stop': None}))
+        if runlog is not None and res is not None and not out:
+            # the transcript: every write is the next chunk delivered from the child or the next response sent, in order;
+            # each write is followed by a flush
+            ws = runlog.writes()
+            det_ = {'stop': None, 'log': 'logfile', 'nwrites': len(ws)}
+            sends = []
+            for c in r.calls:
+                if c['outcome'][0] != 'ret':
+                    continue
+                e = events[c['outcome'][1]] if c['outcome'][1] < len(events) else None
+                if e is not None and (e['resp']['kind'] == 'str' or e['resp'].get('ret') == 'str'):
+                    v_ = e['resp']['v']
+                    sends.append(v_ if enc else v_.encode('latin-1'))
+            si = 0
+            rp = 0
+            R_ = st().join(child.chunks)        # (one read_nonblocking may be several logged reads: compare the text)
+            bad = None
+            for w_ in ws:
+                if type(w_) is not st:
+                    bad = 'the log received %s in %s mode' % (type(w_).__name__, st.__name__)
+                    break
+                if not len(w_):
+                    continue
+                if si < len(sends) and w_ == sends[si]:
+                    si += 1
+                elif R_[rp:rp + len(w_)] == w_:
+                    rp += len(w_)
+                else:
+                    bad = 'log write %r is neither the text read next from the child nor the next response sent' % (w_[:40],)
+                    break
+            if bad is None and (rp != len(R_) or si != len(sends)):
+                bad = 'the log holds %d of %d characters read and %d of %d responses sent' % (rp, len(R_), si, len(sends))
+            if bad is None:
+                evs_ = runlog.events
+                for i_, ev_ in enumerate(evs_):
+                    if ev_[0] == 'w' and (i_ + 1 >= len(evs_) or evs_[i_ + 1][0] != 'f'):
+                        bad = 'a write to the log was not followed by a flush'
+                        break
+            if bad is not None:
+                out.append(Violation('C11.run_logfile', 'run(logfile=...): ' + bad, None, det_))
+            r.w.probe('run_with_logfile')
         info = collect_info(r)
         info['counters'] = {'calls': len(r.calls), 'answers': len(received), 'callbacks': len(cblog),
                             'timeout_events': len([c for c in r.calls if c['outcome'][0] == 'ret' and c['plist'][c['outcome'][1]] is TIMEOUT])}
